@@ -22,18 +22,28 @@ step a block of its own).  This file:
   unsplit problem) and F-14f (blocks = intervals of 4 h: the last step of every interval is a block of its own, an
   unsplit-feasible point is not split-feasible).
 
-TARGET (not proved, evaluated on every generated case by `harness/comp/blocksplit.py`, oracle `aligned_witness`):
-`blocks_aligned_split_equals_unsplit` — for portfolios of the five builders and storages with
-`splitHypsS (specs.map (·.unblocked gs ge)) ref cuts prices`, every storage `lpK` (no boolean options, `cost_store = 0`,
-start level = end level in `[0, size]`) and `blocksAligned specs ref gs ge cuts = true`:
-`setupPortfolioK … = .ok U → 0 < U.n → ∃ ps, setupSplitK … = .ok ps ∧ splitWitness U ps (splitPerm U Is) = true`.
-What is missing: the interval storage with blocks is the restriction of the unsplit storage with blocks
-(`restrictTo`, the analogue of `EAO.SplitStorage.restart_restrict` with `block_rows_restart` for the rows: aligned
-boundaries give the same block `[a, e)` on both sides, `Storage.blockInfl` on the picked grid = on the unsplit grid),
-`Banded` / `RowsInside` of the blocked storage, and the portfolio plumbing of `EAO.SplitStorage.setupSplitS_eq` for `SpecK`.
+* `blocked_storage_interval_is_restriction` — ONE storage in LP form apart from time blocks, no storage costs, start
+  level = end level: if every unsplit block lies inside the interval's piece `[sa, sa+m)` of the storage's grid or is
+  disjoint from it, and the blocks found on the interval grid are the unsplit blocks of that piece (shifted), the
+  storage the split set-up builds in the interval IS the restriction (`restrictTo`) of the unsplit storage WITH blocks.
+* `blocks_pairs_aligned_split_equals_unsplit` — portfolios of the five builders and storages in time blocks: under
+  `splitHypsS` of the portfolio without blocks, `lpKAll`, the reference grid inside `[gs, ge)` and the PAIR-LEVEL
+  alignment `pairsAligned` (decidable: the block pairs of every interval are the unsplit block pairs of the interval's
+  piece) the split set-up succeeds, the witness of `EAO.C14` is TRUE for the explicit matching, and split = unsplit
+  (feasible sets, values, upper bounds) — no certificate.
+
+REMAINING TARGET (evaluated on every generated case by `harness/comp/blocksplit.py`, oracle `aligned_witness`):
+`blocks_aligned_split_equals_unsplit`, i.e. the same statement with the SET-level condition `blocksAligned` (block
+boundaries as sets) instead of `pairsAligned`.  What is missing is only the bridge `blocksAligned ⇒ pairsAligned`:
+(a) `blockStartsTick` returns a strictly increasing list `< T` starting with 0 on every interval grid (so that
+`blocksOf` succeeds there), (b) two strictly increasing boundary lists with the same elements have the same consecutive
+pairs.  Note that the window of an interval storage is `start or interval start .. stop or interval end`; it selects
+the steps of the unsplit window only if the reference grid lies inside `[gs, ge)` — hypothesis `hpts` below, which the
+TARGET as first written does not have and NEEDS (machine-checked counterexample in the example section: `gs`, `ge` =
+00:00, 04:00 on the eight-hour grid; `blocksAligned` true, witness false).
 -/
 namespace EAO.C14K
-open EAO EAO.SplitStorage EAO.SplitBuild EAO.BlockSplit
+open EAO EAO.SplitStorage EAO.SplitBuild EAO.BlockSplit EAO.Split
 
 /-- **A block boundary acts like a split cut.**  Start level = end level, no maximum holding duration: the "full" and
     "empty" level rows of step `a + j` of the block `[a, e)` are literally the level rows of a storage restarted at
@@ -75,6 +85,50 @@ theorem blocks_aligned_split_equals_unsplit_partial (specs : List SpecK) (ref : 
     fun B => C14.split_upper_bounds U ps perm hW B, fun B => C14.split_upper_bounds_relaxed U ps perm hW B⟩
   obtain ⟨_, h2, h3⟩ := C14.split_witness_pullback U ps perm hW y
   exact ⟨h2, h3⟩
+
+/-- **The interval storage with time blocks is the restriction of the unsplit storage with time blocks.**  `p` in LP
+    form apart from `blocks`, no storage costs, start level = end level; `bl` the blocks of the unsplit storage on its
+    grid `g` (block starts `aa`), `[sa, sa+m)` the positions of `g` at the interval's steps `I`.  If every block lies
+    inside that piece or is disjoint from it, and the block starts `aaI` found on the interval grid give exactly the
+    blocks of the piece (written with the positions of the picked grid), then what the split set-up builds in the
+    interval is `A.restrictTo I`: same variables, costs, bounds, mapping, and the level rows of the blocks of the piece. -/
+theorem blocked_storage_interval_is_restriction (p : StorageP) (aa aaI : Option (List Nat)) (g : Grid) (T : Nat)
+    (prices : Prices) (A : AssetProblem) (bl : List (Nat × Nat)) (I : List Nat) (sa m : Nat)
+    (hg : g.Ok) (hlp : ({ p with blocks := none } : StorageP).lp = true) (hcs : p.costStore = 0)
+    (hse : p.startLevel = p.endLevel) (hP : g.posIn I = List.range' sa m) (hT : 0 < g.T)
+    (hbl : Storage.blocksOf { p with blocks := aa } g.T = .ok bl)
+    (hal : ∀ ae ∈ bl, inside sa m ae = true ∨ ae.2 ≤ sa ∨ sa + m ≤ ae.1)
+    (haaI : m ≠ 0 → Storage.blocksOf { p with blocks := aaI } m = .ok ((bl.filter (inside sa m)).map (unshift sa)))
+    (hA : buildStorage { p with blocks := aa } g T prices = .ok A) :
+    buildStorage { p with blocks := aaI } (g.pick I) I.length (pickPrices I prices) = .ok (A.restrictTo I) :=
+  blk_interval_build { p with blocks := none } aa aaI g T prices A bl I sa m hg hlp hcs hse hP hT hbl hal haaI hA
+
+/-- **Split = unsplit for storages in time blocks, without a certificate** (pair-level alignment).  Portfolio of the
+    five builders and storages with `block_size`; `splitHypsS` for the portfolio WITHOUT blocks, every storage `lpK`,
+    the reference grid inside `[gs, ge)`, `pairsAligned` (for every storage and interval: each unsplit block inside
+    the interval's piece or disjoint from it, the blocks recomputed on the interval grid = the unsplit blocks of the
+    piece).  Then the split set-up succeeds, the witness of `EAO.C14` holds against the UNSPLIT problem along the explicit
+    matching, and hence feasible sets, values and upper bounds of split and unsplit agree. -/
+theorem blocks_pairs_aligned_split_equals_unsplit (specs : List SpecK) (ref : Grid) (gs ge : Int) (cuts : List Int)
+    (prices : Prices) (unitSec : Nat) (skip : List String) (U : Problem)
+    (hH : splitHypsS (specs.map fun a => a.unblocked gs ge) ref cuts prices = true)
+    (hK : lpKAll specs = true) (hpts : ∀ t ∈ ref.pts, gs ≤ t ∧ t < ge)
+    (hal : pairsAligned specs ref gs ge cuts = true)
+    (hU : setupPortfolioK specs ref gs ge prices unitSec skip = .ok U) (hpos : 0 < U.n) :
+    ∃ ps, setupSplitK specs ref cuts prices unitSec skip = .ok ps ∧
+      splitWitness U ps (splitPerm U ((splitPairs cuts).map (intervalSteps ref))) = true ∧
+      (∀ x, ((blockSum ps).Feasible x ↔
+              U.Feasible (transportAlong (splitPerm U ((splitPairs cuts).map (intervalSteps ref))) x)) ∧
+            ((blockSum ps).FeasibleRelaxed x ↔
+              U.FeasibleRelaxed (transportAlong (splitPerm U ((splitPairs cuts).map (intervalSteps ref))) x)) ∧
+            (blockSum ps).value x =
+              U.value (transportAlong (splitPerm U ((splitPairs cuts).map (intervalSteps ref))) x)) ∧
+      (∀ B, (∀ y, U.Feasible y → U.value y ≤ B) ↔ (∀ x, (blockSum ps).Feasible x → (blockSum ps).value x ≤ B)) ∧
+      (∀ B, (∀ y, U.FeasibleRelaxed y → U.value y ≤ B) ↔
+        (∀ x, (blockSum ps).FeasibleRelaxed x → (blockSum ps).value x ≤ B)) := by
+  obtain ⟨ps, hS, hW⟩ := blocks_split_witness specs ref gs ge cuts prices unitSec skip U hH hK hpts hal hU hpos
+  obtain ⟨h1, _, h3, h4⟩ := blocks_aligned_split_equals_unsplit_partial specs ref gs ge cuts prices unitSec skip U ps hU hS hW
+  exact ⟨ps, hS, hW, h1, h3, h4⟩
 
 /-! ## instances: a market and a storage in time blocks, eight hourly steps, two intervals of four hours
 
@@ -173,6 +227,45 @@ example : blocksAligned (exSpecs 14400 none) g8 0 28800 exCuts = false ∧
     ¬ (blockSum (splitOf (exSpecs 14400 none))).FeasibleRelaxed
       (pullbackAlong exPerm (C14.vecOfList [0, 0, 1, -1, 0, 0, 0, 0, 0, 0, -1, 1, 0, 0, 0, 0])) := by
   decide +kernel
+
+/-- the hypotheses of `blocks_pairs_aligned_split_equals_unsplit` on the aligned instance; F-14k and F-14f are not
+    pair-aligned either -/
+example : pairsAligned (exSpecs 5400 (some 0)) g8 0 28800 exCuts = true ∧ lpKAll (exSpecs 5400 (some 0)) = true ∧
+    (∀ t ∈ g8.pts, (0 : Int) ≤ t ∧ t < 28800) ∧
+    pairsAligned (exSpecs 10800 none) g8 0 28800 exCuts = false ∧
+    pairsAligned (exSpecs 14400 none) g8 0 28800 exCuts = false := by decide +kernel
+
+/-- the theorem at work: the split set-up of the aligned instance succeeds with the witness, no evaluation of the witness -/
+example : ∃ ps, setupSplitK (exSpecs 5400 (some 0)) g8 exCuts exPrices 3600 [] = .ok ps ∧
+    splitWitness (unsplitOf (exSpecs 5400 (some 0))) ps
+      (splitPerm (unsplitOf (exSpecs 5400 (some 0))) ((splitPairs exCuts).map (intervalSteps g8))) = true := by
+  obtain ⟨ps, h1, h2, _⟩ := blocks_pairs_aligned_split_equals_unsplit (exSpecs 5400 (some 0)) g8 0 28800 exCuts exPrices
+    3600 [] (unsplitOf (exSpecs 5400 (some 0))) (by decide +kernel) (by decide +kernel) (by decide +kernel)
+    (by decide +kernel) exU_ok (by decide +kernel)
+  exact ⟨ps, h1, h2⟩
+
+/-- `blocked_storage_interval_is_restriction` on the second interval of the aligned instance: unsplit blocks
+    `[0,1) [1,3) [3,4) [4,6) [6,7) [7,8)`, piece `[4, 8)`: the blocks `[0,2) [2,3) [3,4)` of the interval grid -/
+example : Storage.blocksOf { exStore with blocks := some [0, 1, 3, 4, 6, 7] } g8.T =
+      .ok [(0, 1), (1, 3), (3, 4), (4, 6), (6, 7), (7, 8)] ∧
+    g8.posIn [4, 5, 6, 7] = List.range' 4 4 ∧
+    ([(0, 1), (1, 3), (3, 4), (4, 6), (6, 7), (7, 8)].filter (inside 4 4)).map (unshift 4) = [(0, 2), (2, 3), (3, 4)] ∧
+    Storage.blocksOf { exStore with blocks := some [0, 2, 3] } 4 = .ok [(0, 2), (2, 3), (3, 4)] ∧
+    ({ exStore with blocks := none } : StorageP).lp = true := by decide +kernel
+
+/-- **the reference grid must lie inside `[gs, ge)`** (hypothesis `hpts`): the same portfolio with blocks of 2 h and
+    `gs = 00:00`, `ge = 04:00` on the eight-hour grid.  The unsplit storage lives on the first four steps only (12
+    variables); in the second interval the window of the storage is `interval start .. interval end`, so the split set-up
+    gives it four more steps (8 + 8 variables).  `splitHypsS`, `lpKAll`, `blocksAligned` and `pairsAligned` all hold
+    (the second piece of the storage's grid is empty, its boundaries are shifted by 0), the witness is false: without
+    `hpts` the statement fails — also with `blocksAligned` in place of `pairsAligned` -/
+example : blocksAligned (exSpecs 7200 none) g8 0 14400 exCuts = true ∧
+    pairsAligned (exSpecs 7200 none) g8 0 14400 exCuts = true ∧ lpKAll (exSpecs 7200 none) = true ∧
+    splitHypsS ((exSpecs 7200 none).map fun a => a.unblocked 0 14400) g8 exCuts exPrices = true ∧
+    (match setupPortfolioK (exSpecs 7200 none) g8 0 14400 exPrices 3600 [],
+        setupSplitK (exSpecs 7200 none) g8 exCuts exPrices 3600 [] with
+      | .ok U, .ok ps => decide (U.n = 12) && decide (ps.map (·.n) = [8, 8]) && !splitWitness U ps (splitPerm U exIs)
+      | _, _ => false) = true := by decide +kernel
 
 /-- `block_rows_restart` / `single_block_is_unblocked`: hypotheses satisfiable -/
 example : exStore.maxStoreDuration = none ∧ exStore.startLevel = exStore.endLevel ∧ (3 : Nat) ≤ 6 ∧
